@@ -532,6 +532,12 @@ def r_sortshape(f):
                 if not okk and adv == ["for_each"]:
                     # `rows_mut().for_each(|r| ..swaps..)`: one traversal of every row, the swaps in the closure
                     sw_clo = [1 for c in b.closures() for _, _, fn2 in c.calls() if fn2 and fn2["path"] in ("core::ptr::swap", "core::slice::<impl [T]>::swap")]
+                    # .. or the closure hands each row to a crate helper that swaps
+                    for c in b.closures():
+                        for _, _, fn2 in c.calls():
+                            hb2 = f.crate_fn_for_call(fn2) if fn2 else None
+                            if hb2 is not None and hb2.kind != "Closure" and any(fn3 and fn3["path"] in ("core::ptr::swap", "core::slice::<impl [T]>::swap") for hb3 in [hb2] + hb2.closures() for _, _, fn3 in hb3.calls()):
+                                sw_clo.append(1)
                     okk = bool(sw_clo)
                     swaps = swaps or sw_clo
                 why = "rows_mut() cursor advanced by %s, swaps: %d" % (sorted(set(adv)), len(swaps))
